@@ -186,21 +186,7 @@ def run(ctx: Ctx) -> None:
     fillmodel.obligations(ctx, "R8.2", lexmod, set(lm.udl_start), ("line",))
 
     # ------------------------------------------------------------------ R8.8
-    ctx.rule("R8.8", "reference literal grammar is included in the intended rule's language and no earlier rule matches a prefix of a reference literal", minimum=20)
-    for name, rx, rname in REFERENCE:
-        R = Auto(rx, 0, name=name)
-        rule = lm.rule(rname)
-        cex = not_included(R, rule.auto(flags))
-        ctx.ob("R8.8", f"lexer:PlyLexer.{rname}|accepts every {name}", cex is None,
-               msg=f"{name} {cex!r} is not matched as a whole by {rname}", node=rule.node, mod=lexmod, detail={"reference": rx})
-        for E in lm.rules[: rule.prio]:
-            w = prefix_preempts(E.auto(flags), R)
-            if w is not None and rname == "t_NAME":
-                # an identifier that spells a literal prefix followed by a quote is not an identifier
-                continue
-            ctx.ob("R8.8", f"lexer:PlyLexer.{rname}|{name} not pre-empted by {E.name}", w is None,
-                   msg=f"{E.name} has priority and matches a prefix of the {name} {w!r}", node=E.node, mod=lexmod, nontrivial=False)
-        ctx.sample({"rule": "R8.8", "class": name, "reference": rx, "intended": rname, "counterexample": cex}) if name in ("hex float", "char literal") else None
+    reference_inclusion(ctx, lm)
     ctx.exhaustive = True
 
     # ------------------------------------------------------------------ R8.9 (bounds depend on the tier)
@@ -628,3 +614,24 @@ def _udl_shape(fm: FillModel) -> Tuple[bool, bool]:
     if not saw_reject:
         cond_ok = False
     return cond_ok, fuse_ok
+
+
+def reference_inclusion(ctx: Ctx, lm: LexModel) -> None:
+    """R8.8 (also evaluated under C14's id): language inclusion of the reference literal grammar in the intended rules."""
+    lexmod = lm.lexer
+    flags = lm.reflags
+    ctx.rule("R8.8", "reference literal grammar is included in the intended rule's language and no earlier rule matches a prefix of a reference literal", minimum=20)
+    for name, rx, rname in REFERENCE:
+        R = Auto(rx, 0, name=name)
+        rule = lm.rule(rname)
+        cex = not_included(R, rule.auto(flags))
+        ctx.ob("R8.8", f"lexer:PlyLexer.{rname}|accepts every {name}", cex is None,
+               msg=f"{name} {cex!r} is not matched as a whole by {rname}", node=rule.node, mod=lexmod, detail={"reference": rx})
+        for E in lm.rules[: rule.prio]:
+            w = prefix_preempts(E.auto(flags), R)
+            if w is not None and rname == "t_NAME":
+                # an identifier that spells a literal prefix followed by a quote is not an identifier
+                continue
+            ctx.ob("R8.8", f"lexer:PlyLexer.{rname}|{name} not pre-empted by {E.name}", w is None,
+                   msg=f"{E.name} has priority and matches a prefix of the {name} {w!r}", node=E.node, mod=lexmod, nontrivial=False)
+        ctx.sample({"rule": "R8.8", "class": name, "reference": rx, "intended": rname, "counterexample": cex}) if name in ("hex float", "char literal") else None
